@@ -255,6 +255,7 @@ type c29Ref struct {
 	committed c29Cfg
 	revs      map[string]map[int]map[string]interface{} // snap -> revision -> saved options
 	txs       []*c29RefTx
+	snaps     []string // the world: every snap any operation may name
 	// snaps whose committed configuration the last operation was entitled to change (commit: the snaps the
 	// transaction wrote to; restore: its snap)
 	entitled map[string]bool
@@ -407,72 +408,73 @@ type c29Verdict struct{ key, msg string }
 // observation (c29Observe) is done by the caller afterwards.
 func c29Step(in *c29Inst, ref *c29Ref, op c29Op) []c29Verdict {
 	var bad []c29Verdict
+	sn := op.snap()
+	ref.entitled = map[string]bool{}
 	switch op.Op {
 	case c29Set:
 		t := in.tx(op.Tx)
 		rt := ref.txs[op.Tx]
-		if !rt.begun {
-			rt.begun = true
-			rt.snapshot = c29CopyOrNil(ref.committed)
-		}
+		rt.begin(ref)
 		path := strings.Split(op.Key, ".")
 		val := c29Value(op.Val, op.Tx)
 		before := c29Internal(t)
-		err := t.Set(c29Snap, op.Key, val)
-		mayFail := c29ScalarOnPath(rt.view(rt.snapshot), path) || (rt.snapshot != nil && c29ScalarOnPath(rt.snapshot, path))
+		err := t.Set(sn, op.Key, val)
+		snapshot := rt.snapshot[sn]
+		mayFail := c29ScalarOnPath(rt.view(sn, snapshot), path) || (snapshot != nil && c29ScalarOnPath(snapshot, path))
 		if err != nil {
 			if !mayFail {
-				bad = append(bad, c29Verdict{"set-refused:" + op.Key, fmt.Sprintf("%v failed (%v) although neither the transaction's view nor its snapshot has a non-map value on the path", op, err)})
+				bad = append(bad, c29Verdict{"set-refused:" + sn + "/" + op.Key, fmt.Sprintf("%v failed (%v) although neither the transaction's view nor its snapshot of snap %s has a non-map value on the path", op, err, sn)})
 			}
 			if after := c29Internal(t); after != before {
-				bad = append(bad, c29Verdict{"failed-set-changed-transaction:" + op.Key, fmt.Sprintf("%v failed (%v) but changed the transaction: before %s after %s", op, err, before, after)})
+				bad = append(bad, c29Verdict{"failed-set-changed-transaction:" + sn + "/" + op.Key, fmt.Sprintf("%v failed (%v) but changed the transaction: before %s after %s", op, err, before, after)})
 			}
 		} else {
-			rt.writes = append(rt.writes, c29Write{path, val})
+			rt.writes = append(rt.writes, c29Write{sn, path, val})
 		}
 	case c29ReadAll:
 		in.tx(op.Tx)
-		rt := ref.txs[op.Tx]
-		if !rt.begun {
-			rt.begun = true
-			rt.snapshot = c29CopyOrNil(ref.committed)
-		}
+		ref.txs[op.Tx].begin(ref)
 		// the reads themselves are part of the observation that follows every step
-		if v := c29ObserveTx(in, ref, op.Tx, c29AllKeys); len(v) != 0 {
+		if v := c29ObserveTx(in, ref, op.Tx, ref.snaps, c29AllKeys); len(v) != 0 {
 			bad = append(bad, v...)
 		}
 	case c29Commit:
 		t := in.tx(op.Tx)
 		rt := ref.txs[op.Tx]
-		if !rt.begun {
-			rt.begun = true
-			rt.snapshot = c29CopyOrNil(ref.committed)
-		}
+		rt.begin(ref)
 		t.Commit()
 		if len(rt.writes) != 0 {
-			ref.committed = c29PruneMap(rt.view(ref.committed), false)
-			rt.snapshot = c29CopyMap(ref.committed)
+			// latest committed configuration + exactly the written options of exactly the written snaps
+			for w := range rt.written() {
+				ref.committed[w] = c29PruneMap(rt.view(w, ref.committed[w]), false)
+				ref.entitled[w] = true
+			}
+			rt.snapshot = ref.committed.copy()
 			rt.writes = nil
 		}
 	case c29Save:
-		if err := SaveRevisionConfig(in.st, c29Snap, snap.R(op.Rev)); err != nil {
+		if err := SaveRevisionConfig(in.st, sn, snap.R(op.Rev)); err != nil {
 			bad = append(bad, c29Verdict{"save-error", fmt.Sprintf("%v: %v", op, err)})
 		}
-		if ref.committed != nil {
-			ref.revs[op.Rev] = c29CopyMap(ref.committed)
+		if cur, ok := ref.committed[sn]; ok {
+			if ref.revs[sn] == nil {
+				ref.revs[sn] = map[int]map[string]interface{}{}
+			}
+			ref.revs[sn][op.Rev] = c29CopyMap(cur)
 		}
 	case c29Restore:
-		if err := RestoreRevisionConfig(in.st, c29Snap, snap.R(op.Rev)); err != nil {
+		if err := RestoreRevisionConfig(in.st, sn, snap.R(op.Rev)); err != nil {
 			bad = append(bad, c29Verdict{"restore-error", fmt.Sprintf("%v: %v", op, err)})
 		}
-		if saved, ok := ref.revs[op.Rev]; ok {
-			ref.committed = c29CopyMap(saved)
+		if saved, ok := ref.revs[sn][op.Rev]; ok {
+			ref.committed[sn] = c29CopyMap(saved)
+			ref.entitled[sn] = true
 		}
 	case c29Discard:
-		if err := DiscardRevisionConfig(in.st, c29Snap, snap.R(op.Rev)); err != nil {
+		if err := DiscardRevisionConfig(in.st, sn, snap.R(op.Rev)); err != nil {
 			bad = append(bad, c29Verdict{"discard-error", fmt.Sprintf("%v: %v", op, err)})
 		}
-		delete(ref.revs, op.Rev)
+		delete(ref.revs[sn], op.Rev)
 	}
 	return bad
 }
@@ -487,46 +489,42 @@ func c29Guard(op c29Op, f func() []c29Verdict) (bad []c29Verdict) {
 	return f()
 }
 
-func c29CopyOrNil(m map[string]interface{}) map[string]interface{} {
-	if m == nil {
-		return nil
-	}
-	return c29CopyMap(m)
-}
-
-// c29ObserveTx performs Get(key) for every key on transaction i and compares with the reference: the value last
-// written in the transaction, else the committed value — as of the transaction's snapshot or the latest one.
-func c29ObserveTx(in *c29Inst, ref *c29Ref, i int, keys []string) []c29Verdict {
+// c29ObserveTx performs Get(snap, key) for every snap and key on transaction i and compares with the reference:
+// the value last written in the transaction (to that snap), else the committed value of that snap — as of the
+// transaction's snapshot or the latest one.
+func c29ObserveTx(in *c29Inst, ref *c29Ref, i int, snaps, keys []string) []c29Verdict {
 	var bad []c29Verdict
 	t := in.txs[i]
 	rt := ref.txs[i]
 	before := c29Internal(t)
-	viewSnap := c29PruneMap(rt.view(rt.snapshot), false)
-	viewLatest := c29PruneMap(rt.view(ref.committed), false)
-	for _, key := range keys {
-		path := strings.Split(key, ".")
-		var got interface{}
-		err := t.Get(c29Snap, key, &got)
-		gotS := "-"
-		if err == nil {
-			raw, merr := json.Marshal(got)
-			if merr != nil {
-				eng.HarnessError("cannot marshal Get result: %v", merr)
+	for _, sn := range snaps {
+		viewSnap := c29PruneMap(rt.view(sn, rt.snapshot[sn]), false)
+		viewLatest := c29PruneMap(rt.view(sn, ref.committed[sn]), false)
+		for _, key := range keys {
+			path := strings.Split(key, ".")
+			var got interface{}
+			err := t.Get(sn, key, &got)
+			gotS := "-"
+			if err == nil {
+				raw, merr := json.Marshal(got)
+				if merr != nil {
+					eng.HarnessError("cannot marshal Get result: %v", merr)
+				}
+				gotS = c29Canon(c29Decode(raw), true)
 			}
-			gotS = c29Canon(c29Decode(raw), true)
-		}
-		w1 := c29Canon(c29Lookup(viewSnap, path))
-		w2 := c29Canon(c29Lookup(viewLatest, path))
-		if gotS != w1 && gotS != w2 {
-			kind := "get-mismatch"
-			if len(rt.writes) == 0 {
-				kind = "get-mismatch-unwritten"
+			w1 := c29Canon(c29Lookup(viewSnap, path))
+			w2 := c29Canon(c29Lookup(viewLatest, path))
+			if gotS != w1 && gotS != w2 {
+				kind := "get-mismatch"
+				if !rt.written()[sn] {
+					kind = "get-mismatch-unwritten"
+				}
+				want := w1
+				if w2 != w1 {
+					want = w1 + " (snapshot) or " + w2 + " (latest)"
+				}
+				bad = append(bad, c29Verdict{kind + ":" + sn + "/" + key, fmt.Sprintf("T%d.Get(%s, %s) = %s (err=%v), expected %s", i, sn, key, gotS, err, want)})
 			}
-			want := w1
-			if w2 != w1 {
-				want = w1 + " (snapshot) or " + w2 + " (latest)"
-			}
-			bad = append(bad, c29Verdict{kind + ":" + key, fmt.Sprintf("T%d.Get(%s) = %s (err=%v), expected %s", i, key, gotS, err, want)})
 		}
 	}
 	if after := c29Internal(t); after != before {
@@ -535,35 +533,63 @@ func c29ObserveTx(in *c29Inst, ref *c29Ref, i int, keys []string) []c29Verdict {
 	return bad
 }
 
-// c29Observe: everything observable, compared with the reference.
+// c29Observe: everything observable, compared with the reference, for every snap of the world.
 func c29Observe(in *c29Inst, ref *c29Ref, keys []string) []c29Verdict {
 	var bad []c29Verdict
-	got, have := in.committedConfig()
-	gotS := c29Canon(got, have)
-	wantS := c29Canon(ref.committed, ref.committed != nil)
-	if gotS != wantS {
-		bad = append(bad, c29Verdict{"committed-mismatch", fmt.Sprintf("committed configuration is %s, expected %s", gotS, wantS)})
+	for _, sn := range ref.snaps {
+		got, have := in.committedConfig(sn)
+		gotS := c29Canon(got, have)
+		wantS := c29Canon(ref.committed[sn], ref.committed[sn] != nil)
+		if gotS != wantS {
+			kind := "committed-mismatch"
+			why := ""
+			if !ref.entitled[sn] {
+				// the operation had no business with this snap: a commit that did not write to it, a revision
+				// operation of another snap, a Set, a Get
+				kind = "committed-changed-foreign-snap"
+				why = " (the operation does not write to this snap)"
+			}
+			bad = append(bad, c29Verdict{kind + ":" + sn, fmt.Sprintf("committed configuration of snap %s is %s, expected %s%s", sn, gotS, wantS, why)})
+		}
+		// committed configuration never holds nulls
+		if have && bytes.Contains([]byte(eng.JSON(got)), []byte("null")) {
+			bad = append(bad, c29Verdict{"committed-null:" + sn, fmt.Sprintf("committed configuration of snap %s contains a null: %s", sn, eng.JSON(got))})
+		}
+		gr := in.revisionConfigs(sn)
+		wr := map[string]interface{}{}
+		for r, c := range ref.revs[sn] {
+			wr[fmt.Sprint(r)] = c
+		}
+		gk, wk := c29RevKeys(gr), c29RevKeys(wr)
+		if gk != wk {
+			bad = append(bad, c29Verdict{"revisions-mismatch:" + sn, fmt.Sprintf("saved revisions of snap %s are %s, expected %s", sn, gk, wk)})
+		}
 	}
-	// committed configuration never holds nulls
-	if have && bytes.Contains([]byte(eng.JSON(got)), []byte("null")) {
-		bad = append(bad, c29Verdict{"committed-null", fmt.Sprintf("committed configuration contains a null: %s", eng.JSON(got))})
-	}
-	gr := in.revisionConfigs()
-	wr := map[string]interface{}{}
-	for r, c := range ref.revs {
-		wr[fmt.Sprint(r)] = c
-	}
-	gk, wk := c29RevKeys(gr), c29RevKeys(wr)
-	if gk != wk {
-		bad = append(bad, c29Verdict{"revisions-mismatch", fmt.Sprintf("saved revisions are %s, expected %s", gk, wk)})
+	// nothing but the snaps of the world may ever have an entry
+	var all map[string]json.RawMessage
+	if err := in.st.Get("config", &all); err == nil {
+		for sn := range all {
+			if !c29Has(ref.snaps, sn) {
+				bad = append(bad, c29Verdict{"committed-unknown-snap:" + sn, fmt.Sprintf("the committed configuration has an entry for snap %q which nothing wrote to", sn)})
+			}
+		}
 	}
 	for i, t := range in.txs {
 		if t == nil {
 			continue
 		}
-		bad = append(bad, c29ObserveTx(in, ref, i, keys)...)
+		bad = append(bad, c29ObserveTx(in, ref, i, ref.snaps, keys)...)
 	}
 	return bad
+}
+
+func c29Has(l []string, x string) bool {
+	for _, y := range l {
+		if x == y {
+			return true
+		}
+	}
+	return false
 }
 
 func c29RevKeys(m map[string]interface{}) string {
@@ -581,24 +607,50 @@ func c29RevKeys(m map[string]interface{}) string {
 type c29Space struct {
 	name   string
 	ntx    int
+	snaps  []string // nil = the single snap c29Snap
 	keys   []string
 	vals   []int
 	revs   []int
 	seqLen int
+	// init is executed (and judged) before the exploration starts, by one extra transaction (index ntx) that is not
+	// part of the alphabet: a committed configuration to start from. Paths of cases include it, so replays are
+	// self-contained.
+	init []c29Op
+}
+
+func (sp c29Space) world() []string {
+	if len(sp.snaps) == 0 {
+		return []string{c29Snap}
+	}
+	return sp.snaps
+}
+
+func (sp c29Space) totalTx() int {
+	n := sp.ntx
+	for _, o := range sp.init {
+		if o.Tx+1 > n {
+			n = o.Tx + 1
+		}
+	}
+	return n
 }
 
 func (sp c29Space) ops() []c29Op {
 	var ops []c29Op
 	for tx := 0; tx < sp.ntx; tx++ {
-		for _, k := range sp.keys {
-			for _, v := range sp.vals {
-				ops = append(ops, c29Op{Op: c29Set, Tx: tx, Key: k, Val: v})
+		for _, sn := range sp.world() {
+			for _, k := range sp.keys {
+				for _, v := range sp.vals {
+					ops = append(ops, c29Op{Op: c29Set, Tx: tx, Snap: sn, Key: k, Val: v})
+				}
 			}
 		}
 		ops = append(ops, c29Op{Op: c29ReadAll, Tx: tx}, c29Op{Op: c29Commit, Tx: tx})
 	}
-	for _, r := range sp.revs {
-		ops = append(ops, c29Op{Op: c29Save, Rev: r}, c29Op{Op: c29Restore, Rev: r}, c29Op{Op: c29Discard, Rev: r})
+	for _, sn := range sp.world() {
+		for _, r := range sp.revs {
+			ops = append(ops, c29Op{Op: c29Save, Snap: sn, Rev: r}, c29Op{Op: c29Restore, Snap: sn, Rev: r}, c29Op{Op: c29Discard, Snap: sn, Rev: r})
+		}
 	}
 	return ops
 }
@@ -606,14 +658,17 @@ func (sp c29Space) ops() []c29Op {
 // c29Run replays path on a fresh implementation + reference; returns them and the verdicts of the last step
 // (steps before the last were judged when they were explored; a verdict there now means nondeterminism).
 func c29Run(sp c29Space, path []c29Op, judgeAll bool) (*c29Inst, *c29Ref, []c29Verdict) {
-	in := c29NewInst(sp.ntx)
-	ref := &c29Ref{revs: map[int]map[string]interface{}{}}
-	for i := 0; i < sp.ntx; i++ {
+	in := c29NewInst(sp.totalTx())
+	ref := &c29Ref{committed: c29Cfg{}, revs: map[string]map[int]map[string]interface{}{}, snaps: sp.world(), entitled: map[string]bool{}}
+	for i := 0; i < sp.totalTx(); i++ {
 		ref.txs = append(ref.txs, &c29RefTx{})
 	}
 	var last []c29Verdict
 	for i, op := range path {
 		v := c29Step(in, ref, op)
+		if judgeAll {
+			v = append(v, c29Observe(in, ref, sp.keys)...)
+		}
 		if i == len(path)-1 || judgeAll {
 			last = append(last, v...)
 		}
@@ -621,25 +676,55 @@ func c29Run(sp c29Space, path []c29Op, judgeAll bool) (*c29Inst, *c29Ref, []c29V
 	return in, ref, last
 }
 
-// stale: transaction i has begun and the committed configuration moved on since its snapshot.
-func c29Interplay(ref *c29Ref, op c29Op) bool {
-	if op.Op == c29Save || op.Op == c29Discard {
-		return len(ref.revs) != 0 || ref.committed != nil
-	}
-	if op.Op == c29Restore {
-		_, ok := ref.revs[op.Rev]
-		return ok
+// c29Pre: facts about the state an operation is about to be executed on (reference side), for the non-triviality
+// and coverage counters.
+type c29Pre struct {
+	interplay     bool // transactions interact (see Finish rule)
+	commitWrites  bool // a commit of a transaction with uncommitted writes
+	crossSnap     bool // ... while the committed configuration of a snap it did NOT write moved on since its snapshot
+	staleSameSnap bool // ... while the committed configuration of a snap it DID write moved on since its snapshot
+	absentSnap    bool // ... to a snap that has no entry at all in the committed configuration
+	multiSnap     bool // ... with writes to more than one snap
+	nonEmpty      map[string]bool
+}
+
+func c29Facts(ref *c29Ref, op c29Op) c29Pre {
+	var p c29Pre
+	sn := op.snap()
+	switch op.Op {
+	case c29Save, c29Discard:
+		p.interplay = len(ref.revs[sn]) != 0 || ref.committed[sn] != nil
+		return p
+	case c29Restore:
+		_, p.interplay = ref.revs[sn][op.Rev]
+		return p
 	}
 	rt := ref.txs[op.Tx]
-	if rt.begun && c29Canon(rt.snapshot, rt.snapshot != nil) != c29Canon(ref.committed, ref.committed != nil) {
-		return true
+	if rt.begun && rt.snapshot.canon(ref.snaps) != ref.committed.canon(ref.snaps) {
+		p.interplay = true
 	}
 	for j, o := range ref.txs {
 		if j != op.Tx && len(o.writes) != 0 {
-			return true
+			p.interplay = true
 		}
 	}
-	return false
+	if op.Op == c29Commit && len(rt.writes) != 0 {
+		p.commitWrites = true
+		written := rt.written()
+		p.multiSnap = len(written) > 1
+		p.nonEmpty = map[string]bool{}
+		for _, s := range ref.snaps {
+			moved := c29Canon(rt.snapshot[s], rt.snapshot[s] != nil) != c29Canon(ref.committed[s], ref.committed[s] != nil)
+			if written[s] {
+				p.staleSameSnap = p.staleSameSnap || moved
+				p.absentSnap = p.absentSnap || ref.committed[s] == nil
+				p.nonEmpty[s] = c29Canon(ref.committed[s], ref.committed[s] != nil) != "-"
+			} else {
+				p.crossSnap = p.crossSnap || moved
+			}
+		}
+	}
+	return p
 }
 
 type c29Witness struct {
@@ -663,17 +748,30 @@ func c29Explore(r *eng.Run, sp c29Space) {
 		copy(k[:], h[:16])
 		return k
 	}
-	in0 := c29NewInst(sp.ntx)
+	mkCase := func(path []c29Op, trace string) c29Case {
+		return c29Case{Space: sp.name, Path: path, Trace: trace, Keys: sp.keys, Snaps: sp.world()}
+	}
+	// the start state: empty, or what the init prefix commits (judged completely, step by step)
+	in0, ref0, bad0 := c29Run(sp, sp.init, true)
+	if len(bad0) != 0 {
+		for _, v := range bad0 {
+			r.Violation(v.key, fmt.Sprintf("%s [in the initialisation prefix %s of space %s]", v.msg, c29Trace(sp.init), sp.name), mkCase(sp.init, c29Trace(sp.init)))
+		}
+		return
+	}
+	startCfg := ref0.committed.canon(sp.world())
 	k0 := hash(in0.key())
+	in0.st.Unlock()
 	visited[k0[0]%shards][k0] = struct{}{}
-	frontier := [][]c29Op{nil}
+	frontier := [][]c29Op{append([]c29Op(nil), sp.init...)}
 	var states int64 = 1
+	var sampled int32
 	completed := 0
 	for depth := 0; depth < sp.seqLen && len(frontier) > 0; depth++ {
 		var next [][]c29Op
 		var nmu sync.Mutex
 		witness := map[string]*c29Witness{}
-		var trans, nontriv, gets, setFailed, commitsMerging int64
+		var trans, nontriv, gets, setFailed, commitsMerging, crossSnap, absentSnap, emptied, multiSnap int64
 		var stop int32
 		eng.ParallelFor(len(frontier), func(i int) {
 			if atomic.LoadInt32(&stop) != 0 {
@@ -684,13 +782,12 @@ func c29Explore(r *eng.Run, sp c29Space) {
 				return
 			}
 			path := frontier[i]
-			var lt, ln, lg, lsf, lcm int64
+			var lt, ln, lg, lsf, lcm, lcross, labsent, lemptied, lmulti int64
 			var found [][]c29Op
 			for _, op := range ops {
 				full := append(append(make([]c29Op, 0, len(path)+1), path...), op)
 				in, ref, _ := c29Run(sp, path, false)
-				interplay := c29Interplay(ref, op)
-				hadWrites := op.Op == c29Commit && len(ref.txs[op.Tx].writes) != 0
+				pre := c29Facts(ref, op)
 				nWritesBefore := 0
 				if op.Op == c29Set {
 					nWritesBefore = len(ref.txs[op.Tx].writes)
@@ -701,14 +798,32 @@ func c29Explore(r *eng.Run, sp c29Space) {
 				lt++
 				for _, t := range in.txs {
 					if t != nil {
-						lg += int64(len(sp.keys))
+						lg += int64(len(sp.keys) * len(ref.snaps))
 					}
 				}
-				if interplay {
+				empties := false
+				for s, was := range pre.nonEmpty {
+					if was && c29Canon(ref.committed[s], ref.committed[s] != nil) == "-" {
+						empties = true
+					}
+				}
+				if pre.interplay {
 					ln++
-					if hadWrites {
+					if pre.commitWrites {
 						lcm++
 					}
+				}
+				if pre.crossSnap {
+					lcross++
+				}
+				if pre.absentSnap {
+					labsent++
+				}
+				if pre.multiSnap {
+					lmulti++
+				}
+				if empties {
+					lemptied++
 				}
 				if op.Op == c29Set && len(ref.txs[op.Tx].writes) == nWritesBefore {
 					lsf++
@@ -725,10 +840,11 @@ func c29Explore(r *eng.Run, sp c29Space) {
 						w.count++
 						if w.trace == "" || tr < w.trace {
 							w.trace, w.msg = tr, v.msg
-							w.cas = c29Case{Space: sp.name, Path: full, Trace: tr, Keys: sp.keys}
+							w.cas = mkCase(full, tr)
 						}
 					}
 					nmu.Unlock()
+					in.st.Unlock()
 					continue // a state reached through a violation is not extended
 				}
 				k := hash(in.key())
@@ -741,8 +857,14 @@ func c29Explore(r *eng.Run, sp c29Space) {
 				vmu[sh].Unlock()
 				if !seen {
 					found = append(found, full)
-					if len(full) >= 4 && interplay && hadWrites && r.WantSample() {
-						r.Sample(c29Case{Space: sp.name, Path: full, Trace: c29Trace(full) + " => committed " + c29Canon(ref.committed, ref.committed != nil)})
+					// per space: one commit merging over a stale snapshot, preferably (worlds of several snaps) one
+					// where a snap the transaction did not write moved on, or where the commit empties a snap
+					want := pre.interplay && pre.commitWrites && len(full)-len(sp.init) >= 4
+					if len(ref.snaps) > 1 {
+						want = want && (pre.crossSnap || empties)
+					}
+					if want && atomic.CompareAndSwapInt32(&sampled, 0, 1) {
+						r.Sample(c29Case{Space: sp.name, Path: full, Snaps: sp.world(), Trace: c29Trace(full) + " => committed " + ref.committed.canon(ref.snaps)})
 					}
 				}
 				in.st.Unlock()
@@ -752,6 +874,10 @@ func c29Explore(r *eng.Run, sp c29Space) {
 			atomic.AddInt64(&gets, lg)
 			atomic.AddInt64(&setFailed, lsf)
 			atomic.AddInt64(&commitsMerging, lcm)
+			atomic.AddInt64(&crossSnap, lcross)
+			atomic.AddInt64(&absentSnap, labsent)
+			atomic.AddInt64(&emptied, lemptied)
+			atomic.AddInt64(&multiSnap, lmulti)
 			if len(found) != 0 {
 				nmu.Lock()
 				next = append(next, found...)
@@ -767,6 +893,14 @@ func c29Explore(r *eng.Run, sp c29Space) {
 		r.Add("get_results_compared", gets)
 		r.Add("sets_refused", setFailed)
 		r.Add("commits_with_writes_under_interplay", commitsMerging)
+		r.Add("commits_while_unwritten_snap_moved_on", crossSnap)
+		r.Add("commits_to_snap_without_entry", absentSnap)
+		r.Add("commits_removing_last_option_of_snap", emptied)
+		r.Add("commits_writing_several_snaps", multiSnap)
+		if len(sp.world()) > 1 {
+			r.Add("transitions_multi_snap_worlds", trans)
+			r.Add("commits_while_unwritten_snap_moved_on_"+sp.name, crossSnap)
+		}
 		keys := make([]string, 0, len(witness))
 		for k := range witness {
 			keys = append(keys, k)
@@ -775,15 +909,24 @@ func c29Explore(r *eng.Run, sp c29Space) {
 		for _, k := range keys {
 			w := witness[k]
 			r.Add("violating_transitions", w.count)
-			r.Violation(k, fmt.Sprintf("%s [shortest trace of this class: %s; %d transitions of this class at sequence length %d in space %s]", w.msg, w.trace, w.count, depth+1, sp.name), w.cas)
+			r.Violation(k, fmt.Sprintf("%s [shortest trace of this class: %s; %d transitions of this class at sequence length %d in space %s, start configuration %s]", w.msg, w.trace, w.count, depth+1, sp.name, startCfg), w.cas)
 		}
 		if stop != 0 {
 			r.Cap("time", fmt.Sprintf("space %s: sequences up to length %d complete, length %d partial", sp.name, completed, depth+1))
 			break
 		}
 		completed = depth + 1
-		sort.Slice(next, func(a, b int) bool { return c29Trace(next[a]) < c29Trace(next[b]) })
-		frontier = next
+		// deterministic frontier order (sorted by trace, computed once per path)
+		traces := make([]string, len(next))
+		order := make([]int, len(next))
+		for i := range next {
+			traces[i], order[i] = c29Trace(next[i]), i
+		}
+		sort.Slice(order, func(a, b int) bool { return traces[order[a]] < traces[order[b]] })
+		frontier = make([][]c29Op, len(next))
+		for i, j := range order {
+			frontier[i] = next[j]
+		}
 	}
 	r.Add("states", states)
 	r.Add("states_"+sp.name, states)
@@ -792,7 +935,7 @@ func c29Explore(r *eng.Run, sp c29Space) {
 
 func TestVerifC29(t *testing.T) {
 	debug.SetGCPercent(400)
-	r := eng.Start("C29", "model_checking", 100*time.Second, 12*time.Minute)
+	r := eng.Start("C29", "model_checking", 150*time.Second, 13*time.Minute)
 	r.Assume("reference = nested maps: a transaction's view is its snapshot (or the latest committed configuration: the statement does not choose, both are accepted per Get) with its writes applied in order, nulls removed; commit = latest committed configuration with the transaction's writes applied in order, nulls removed",
 		"empty maps and absent options are not distinguished (whether removing the last entry of a map leaves an empty map is not part of the statement)",
 		"a Set whose path runs through a non-map value of the transaction's view or of its snapshot may be refused; if refused it must change nothing, if accepted it must take effect",
@@ -813,7 +956,14 @@ func TestVerifC29(t *testing.T) {
 		if len(keys) == 0 {
 			keys = c29AllKeys
 		}
-		sp := c29Space{name: c.Space, ntx: ntx, keys: keys}
+		snaps := c.Snaps
+		for _, o := range c.Path {
+			if !c29Has(snaps, o.snap()) {
+				snaps = append(snaps, o.snap())
+			}
+		}
+		sort.Strings(snaps)
+		sp := c29Space{name: c.Space, ntx: ntx, keys: keys, snaps: snaps}
 		for rep := 0; rep < 5; rep++ {
 			in, ref, _ := c29Run(sp, c.Path[:len(c.Path)-1], false)
 			last := c.Path[len(c.Path)-1]
@@ -821,8 +971,11 @@ func TestVerifC29(t *testing.T) {
 				return append(c29Step(in, ref, last), c29Observe(in, ref, keys)...)
 			})
 			if rep == 0 {
-				got, have := in.committedConfig()
-				fmt.Printf("replay: %s\n  committed: %s (reference %s)\n  revisions: %s\n", c29Trace(c.Path), c29Canon(got, have), c29Canon(ref.committed, ref.committed != nil), c29RevKeys(in.revisionConfigs()))
+				fmt.Printf("replay: %s\n", c29Trace(c.Path))
+				for _, sn := range snaps {
+					got, have := in.committedConfig(sn)
+					fmt.Printf("  snap %s committed: %s (reference %s) revisions: %s\n", sn, c29Canon(got, have), c29Canon(ref.committed[sn], ref.committed[sn] != nil), c29RevKeys(in.revisionConfigs(sn)))
+				}
 				for i, t := range in.txs {
 					if t != nil {
 						fmt.Printf("  T%d internals: %s\n", i, c29Internal(t))
@@ -840,36 +993,63 @@ func TestVerifC29(t *testing.T) {
 		r.Finish("replay")
 	}
 
+	externalConfigMu.Lock()
+	nExternal := len(externalConfigMap)
+	externalConfigMu.Unlock()
+	if nExternal != 0 {
+		eng.HarnessError("external configuration is registered in this test binary (%d snaps): the reference does not model it", nExternal)
+	}
+
+	two := c29TwoSnaps
+	ab := []string{"a", "a.b"}
+	// start configuration of the "preset" spaces: snap core has exactly one (nested) option, snap s has no entry at all
+	preset := func(ntx int) []c29Op {
+		return []c29Op{{Op: c29Set, Tx: ntx, Snap: "core", Key: "a.b", Val: 0}, {Op: c29Commit, Tx: ntx}}
+	}
 	var spaces []c29Space
 	if r.Quick() {
 		spaces = []c29Space{
+			{name: "2tx-2snap", ntx: 2, snaps: two, keys: ab, vals: []int{0, 1, 2}, seqLen: 4},
+			{name: "2tx-2snap-deep", ntx: 2, snaps: two, keys: ab, vals: []int{0, 1}, seqLen: 5},
+			{name: "2tx-2snap-preset", ntx: 2, snaps: two, keys: ab, vals: []int{0, 1}, seqLen: 5, init: preset(2)},
+			{name: "3tx-2snap", ntx: 3, snaps: two, keys: ab, vals: []int{0, 1}, seqLen: 4},
+			{name: "3tx-2snap-preset", ntx: 3, snaps: two, keys: ab, vals: []int{0, 1}, seqLen: 4, init: preset(3)},
+			{name: "revisions-2snap", ntx: 1, snaps: two, keys: []string{"a"}, vals: []int{0, 1}, revs: []int{1, 2}, seqLen: 6},
 			{name: "2tx", ntx: 2, keys: c29AllKeys, vals: []int{0, 1, 2, 3}, seqLen: 4},
-			{name: "2tx-deep", ntx: 2, keys: []string{"a", "a.b"}, vals: []int{0, 1, 2}, seqLen: 6},
+			{name: "2tx-deep", ntx: 2, keys: ab, vals: []int{0, 1, 2}, seqLen: 6},
 			{name: "revisions", ntx: 1, keys: []string{"a", "a.b", "d"}, vals: []int{0, 1, 2}, revs: []int{1, 2}, seqLen: 6},
 			{name: "3tx", ntx: 3, keys: []string{"a", "a.b", "d"}, vals: []int{0, 1, 2}, seqLen: 4},
 		}
 	} else {
 		spaces = []c29Space{
+			{name: "2tx-2snap", ntx: 2, snaps: two, keys: ab, vals: []int{0, 1, 2}, seqLen: 6},
+			{name: "2tx-2snap-preset", ntx: 2, snaps: two, keys: ab, vals: []int{0, 1, 2}, seqLen: 6, init: preset(2)},
+			{name: "2tx-2snap-full", ntx: 2, snaps: two, keys: c29AllKeys, vals: []int{0, 1, 2, 3}, seqLen: 4},
+			{name: "3tx-2snap", ntx: 3, snaps: two, keys: ab, vals: []int{0, 1, 2}, seqLen: 5},
+			{name: "3tx-2snap-preset", ntx: 3, snaps: two, keys: ab, vals: []int{0, 1}, seqLen: 5, init: preset(3)},
+			{name: "revisions-2snap", ntx: 2, snaps: two, keys: []string{"a"}, vals: []int{0, 1}, revs: []int{1, 2}, seqLen: 6},
 			{name: "2tx", ntx: 2, keys: c29AllKeys, vals: []int{0, 1, 2, 3, 4}, seqLen: 5},
-			{name: "2tx-deep", ntx: 2, keys: []string{"a", "a.b"}, vals: []int{0, 1, 2}, seqLen: 8},
+			{name: "2tx-deep", ntx: 2, keys: ab, vals: []int{0, 1, 2}, seqLen: 8},
 			{name: "revisions", ntx: 2, keys: []string{"a", "a.b", "d"}, vals: []int{0, 1, 2}, revs: []int{1, 2}, seqLen: 6},
 			{name: "3tx", ntx: 3, keys: c29AllKeys, vals: []int{0, 1, 2, 3}, seqLen: 4},
 		}
 	}
 	bounds := map[string]interface{}{}
 	for _, sp := range spaces {
-		bounds[sp.name] = map[string]interface{}{"transactions": sp.ntx, "keys": sp.keys, "values": func() []string {
+		start := time.Now()
+		bounds[sp.name] = map[string]interface{}{"transactions": sp.ntx, "snaps": sp.world(), "keys": sp.keys, "values": func() []string {
 			var s []string
 			for _, v := range sp.vals {
 				s = append(s, c29ValueNames[v])
 			}
 			return s
-		}(), "revisions": sp.revs, "operations_per_state": len(sp.ops()), "max_sequence_length": sp.seqLen}
+		}(), "revisions": sp.revs, "operations_per_state": len(sp.ops()), "max_sequence_length": sp.seqLen, "start": c29Trace(sp.init)}
 		if r.TimeUp() {
 			r.Cap("time_skipped", "space "+sp.name+" not started")
 			continue
 		}
 		c29Explore(r, sp)
+		fmt.Printf("space %-18s %4d ops/state, length %d: %8d states %9d transitions, %.1fs\n", sp.name, len(sp.ops()), sp.seqLen, r.Count("states_"+sp.name), r.Count("transitions_"+sp.name), time.Since(start).Seconds())
 	}
 	r.Info("bounds", bounds)
 	r.Finish("breadth-first over all interleavings (sequences) of transaction operations Set(key,value)/read-all/Commit of each transaction and Save/Restore/DiscardRevisionConfig, per space alphabet, deduplicated on the exact internal state (state config + revision-config + pristine and changes of every transaction); every operation executed on a state is one transition and is followed by a complete observation (all Gets of all begun transactions, committed config, saved revisions) compared with the reference; distinct_nontrivial = transitions in which transactions actually interact: the acting transaction's snapshot is stale or another transaction has uncommitted writes (or, for revision operations, something is saved/committed)")
